@@ -180,6 +180,9 @@ func run(c *gx.Ctl, p *Params) *gx.Outcome {
 	cl.AddTopic("t", leaders...)
 	cl.ProduceFaults = p.Faults
 	cl.MetaFaults = p.MetaFaults
+	// the idempotent broker worker refreshes metadata synchronously in the middle of handling a
+	// response; keep that window atomic (DESIGN.md §3.2 "urgent actors")
+	cl.UrgentMetadata = true
 	c.AutoRelease = func(site string) bool { return !p.Gates[site] }
 
 	conf := sarama.NewConfig()
